@@ -244,8 +244,8 @@ package http2
 //@   ensures [C13:concurrency-limit-refuses-the-stream-without-a-handler] old(f.HeadersFrame.FrameHeader.StreamID) % 2 == 1 && !(old(mapHas(sc.streams, f.HeadersFrame.FrameHeader.StreamID)) && old(mapGet(sc.streams, f.HeadersFrame.FrameHeader.StreamID)) != nil) && old(f.HeadersFrame.FrameHeader.StreamID) > old(sc.maxClientStreamID) && old(sc.curClientStreams) + 1 > old(sc.advMaxStreams) ==> err.(StreamError) && handlerStarts == old(handlerStarts)
 
 //@ -- what the serve loop maintains between frames, and what the framer guarantees about a frame it hands over
-//@ pure func connInv(sc *serverConn) bool = streamsOK(sc) && inflowOK(sc.inflow) && (forall id uint32 :: mapHas(sc.streams, id) ==> inflowOK(mapGet(sc.streams, id).inflow)) && (forall id uint32 :: mapHas(sc.streams, id) && mapGet(sc.streams, id).state == 1 ==> mapGet(sc.streams, id).body != nil) && connLedger(sc) <= 2147483647 && owedByBodies >= 0 && sc.hs != nil && sc.srv != nil && sc.handler != nil && sc.conn != nil && sc.writeSched != nil && sc.curClientStreams < 4294967295 && hdrCacheOK(sc)
-//@ pure func frameWF(f Frame) bool = (isptr(DataFrame, f) ==> unboxptr(DataFrame, f).FrameHeader.valid && len(unboxptr(DataFrame, f).data) <= unboxptr(DataFrame, f).FrameHeader.Length && unboxptr(DataFrame, f).FrameHeader.Length <= 16777215)
+//@ pure func connInv(sc *serverConn) bool = streamsOK(sc) && inflowOK(sc.inflow) && (forall id uint32 :: mapHas(sc.streams, id) ==> inflowOK(mapGet(sc.streams, id).inflow)) && (forall id uint32 :: mapHas(sc.streams, id) && mapGet(sc.streams, id).state == 1 ==> mapGet(sc.streams, id).body != nil) && connLedger(sc) <= 2147483647 && owedByBodies >= 0 && sc.hs != nil && sc.srv != nil && sc.handler != nil && sc.conn != nil && sc.writeSched != nil && sc.curClientStreams < 4294967295 && hdrCacheOK(sc) && (forall id uint32 :: mapHas(sc.streams, id) ==> mapGet(sc.streams, id).state != 0) && (sc.pingSent ==> sc.readIdleTimer != nil)
+//@ pure func frameWF(f Frame) bool = (isptr(WindowUpdateFrame, f) ==> 1 <= unboxptr(WindowUpdateFrame, f).Increment && unboxptr(WindowUpdateFrame, f).Increment <= 2147483647) && (isptr(DataFrame, f) ==> unboxptr(DataFrame, f).FrameHeader.valid && len(unboxptr(DataFrame, f).data) <= unboxptr(DataFrame, f).FrameHeader.Length && unboxptr(DataFrame, f).FrameHeader.Length <= 16777215)
 
 //@ -- C12, client transport: one piece of request body never exceeds the stream/connection windows, the caller's
 //@ -- bound, or the peer's CURRENT max frame size (re-read on every call; the scratch buffer size is not a bound)
@@ -274,3 +274,55 @@ package http2
 //@   assigns unrestricted
 //@   ensures [C12:request-body-piece-within-callers-bound-and-current-max-frame-size] err == nil && taken != 0 ==> 1 <= taken && taken <= maxBytes && taken <= old(cs.cc).maxFrameSize
 //@   loop 1 invariant cc == old(cs.cc) && cc != nil && cs != nil && 16384 <= cc.maxFrameSize && cc.maxFrameSize <= 16777215 && cs.flow.conn != cs.flow
+
+//@ -- C13: the small per-frame handlers, now proved instead of assumed
+//@ func timer.Reset :: t, d -> r
+//@   trusted
+//@   assigns nothing
+//@ func (*serverConn).scheduleFrameWrite :: sc
+//@   trusted
+//@   assigns unrestricted
+//@ func (*serverConn).closeStream :: sc, st, err
+//@   trusted
+//@   assigns unrestricted
+//@ func field stream.cancelCtx
+//@   trusted
+//@   assigns nothing
+//@ func (*PingFrame).IsAck :: f -> r
+//@   props C19,C13
+//@   requires f != nil
+//@   assigns nothing
+//@   ensures r <==> flag(f.FrameHeader.Flags, 1)
+
+//@ func (*serverConn).processPing :: sc, f -> err
+//@   props C13,C10
+//@   requires sc != nil && f != nil && (sc.pingSent ==> sc.readIdleTimer != nil) && inflowOK(sc.inflow)
+//@   assigns unrestricted, procLog
+//@   ghostset procLog = procLog ++ seq[int]{6}
+//@   ensures procLog == old(procLog) ++ seq[int]{6}
+//@   ensures [C13:ping-ack-never-answered-never-an-error] old(flag(f.FrameHeader.Flags, 1)) ==> err == nil
+//@   ensures [C13:ping-on-a-stream-is-protocol-error] !old(flag(f.FrameHeader.Flags, 1)) && old(f.FrameHeader.StreamID) != 0 ==> isConnErr(err, 1)
+//@   ensures [C13:ping-on-connection-accepted] !old(flag(f.FrameHeader.Flags, 1)) && old(f.FrameHeader.StreamID) == 0 ==> err == nil
+
+//@ func (*serverConn).processResetStream :: sc, f -> err
+//@   props C13,C10
+//@   requires sc != nil && f != nil && streamsOK(sc)
+//@   requires [C13:registered-streams-are-not-idle] forall id uint32 :: mapHas(sc.streams, id) ==> mapGet(sc.streams, id).state != 0
+//@   assigns unrestricted, procLog
+//@   ghostset procLog = procLog ++ seq[int]{3}
+//@   ensures procLog == old(procLog) ++ seq[int]{3}
+//@   ensures [C13:rst-stream-on-idle-stream-is-protocol-error] !old(mapHas(sc.streams, f.FrameHeader.StreamID)) && old(ite(f.FrameHeader.StreamID % 2 == 1, f.FrameHeader.StreamID > sc.maxClientStreamID, f.FrameHeader.StreamID > sc.maxPushPromiseID)) ==> isConnErr(err, 1)
+//@   ensures [C13:rst-stream-on-open-or-closed-stream-accepted] old(mapHas(sc.streams, f.FrameHeader.StreamID)) || !old(ite(f.FrameHeader.StreamID % 2 == 1, f.FrameHeader.StreamID > sc.maxClientStreamID, f.FrameHeader.StreamID > sc.maxPushPromiseID)) ==> err == nil
+
+//@ func (*serverConn).processWindowUpdate :: sc, f -> err
+//@   props C13,C12,C10
+//@   requires sc != nil && f != nil && streamsOK(sc)
+//@   requires [C13:registered-streams-are-not-idle] forall id uint32 :: mapHas(sc.streams, id) ==> mapGet(sc.streams, id).state != 0
+//@   requires [C12:increment-validated-by-the-parser] 1 <= f.Increment && f.Increment <= 2147483647
+//@   assigns unrestricted, procLog
+//@   ghostset procLog = procLog ++ seq[int]{8}
+//@   ensures procLog == old(procLog) ++ seq[int]{8}
+//@   ensures [C13:window-update-on-idle-stream-is-protocol-error] old(f.FrameHeader.StreamID) != 0 && !old(mapHas(sc.streams, f.FrameHeader.StreamID)) && old(ite(f.FrameHeader.StreamID % 2 == 1, f.FrameHeader.StreamID > sc.maxClientStreamID, f.FrameHeader.StreamID > sc.maxPushPromiseID)) ==> isConnErr(err, 1)
+//@   ensures [C13:window-update-on-closed-stream-tolerated] old(f.FrameHeader.StreamID) != 0 && !old(mapHas(sc.streams, f.FrameHeader.StreamID)) && !old(ite(f.FrameHeader.StreamID % 2 == 1, f.FrameHeader.StreamID > sc.maxClientStreamID, f.FrameHeader.StreamID > sc.maxPushPromiseID)) ==> err == nil
+//@   ensures [C12:stream-window-overflow-is-a-stream-flow-control-error] old(f.FrameHeader.StreamID) != 0 && old(mapHas(sc.streams, f.FrameHeader.StreamID)) ==> (err == nil <==> old(mapGet(sc.streams, f.FrameHeader.StreamID).flow.n) + old(f.Increment) <= 2147483647) && (err != nil ==> isStreamErr(err, old(f.FrameHeader.StreamID), 3))
+//@   ensures [C12:connection-window-overflow-ends-the-connection-with-flow-control-error] old(f.FrameHeader.StreamID) == 0 ==> (err == nil <==> old(sc.flow.n) + old(f.Increment) <= 2147483647) && (err != nil ==> err.(goAwayFlowError))
